@@ -272,7 +272,10 @@ func appendTokensForValue(val cty.Value, toks Tokens) Tokens {
 		i := 0
 		for it := val.ElementIterator(); it.Next(); {
 			eKey, eVal := it.Element()
-			if hclsyntax.ValidIdentifier(eKey.AsString()) {
+			// "for" is a valid identifier, but an object constructor whose first
+			// item starts with it would be read as a "for" expression, so that
+			// key is always written in its quoted form.
+			if key := eKey.AsString(); hclsyntax.ValidIdentifier(key) && key != "for" {
 				toks = append(toks, &Token{
 					Type:  hclsyntax.TokenIdent,
 					Bytes: []byte(eKey.AsString()),
